@@ -30,6 +30,9 @@ type scenario struct {
 	Delay    int    `json:"delay"`
 	Timeout  int    `json:"timeout"`
 	CancelAt int    `json:"cancel_at"` // -1 never
+	// BadPublicName: Dialer.PublicName is a 300-byte name (no ECH config can be made from it) and the TLS config has no
+	// config list: Dial must fail up front, without starting or leaving behind anything
+	BadPublicName bool `json:"unencodable_public_name,omitempty"`
 }
 
 const unit = time.Second
@@ -49,6 +52,7 @@ type attempt struct {
 	result         string        // ok | fail | cancelled
 	conn           *fakeConn
 	finished       bool
+	retry          bool // a second DialFunc call for the same target (ECH retry): part of the same attempt
 }
 
 type event struct {
@@ -82,6 +86,9 @@ func run(sc scenario, choose vs.Chooser, traceOn bool) (*trace, *vs.Sched) {
 	}
 	s := vs.RunOpt(choose, 20000, traceOn, func() {
 		d := &ech.Dialer[*fakeConn]{MaxConcurrency: sc.MaxConc, ConcurrencyDelay: time.Duration(sc.Delay) * unit, Timeout: time.Duration(sc.Timeout) * unit}
+		if sc.BadPublicName {
+			d.PublicName = strings.Repeat("p", 300)
+		}
 		d.DialFunc = func(ctx context.Context, network, addr string, tc *tls.Config) (*fakeConn, error) {
 			ti := -1
 			for i := range sc.Plans {
@@ -99,7 +106,24 @@ func run(sc scenario, choose vs.Chooser, traceOn bool) (*trace, *vs.Sched) {
 			}
 			p := sc.Plans[ti]
 			full := false
-			if p.Kind == "hang" {
+			if p.Kind == "reject-then-hang" {
+				// the first call is answered, after D, by an ECH rejection that carries retry configs; the retried call hangs
+				nth := 0
+				for _, o := range tr.attempts {
+					if o.target == ti {
+						nth++
+					}
+				}
+				a.retry = nth > 1
+				if nth == 1 {
+					if full = vs.SleepCtx(ctx, time.Duration(p.D)*unit); full {
+						a.end, a.finished, a.result = vs.Elapsed(), true, "rejected"
+						return nil, &tls.ECHRejectionError{RetryConfigList: []byte{0, 1, 2}}
+					}
+				} else {
+					vs.WaitDone(ctx)
+				}
+			} else if p.Kind == "hang" {
 				vs.WaitDone(ctx)
 			} else if p.Kind == "ok-slow-to-abort" {
 				// succeeds after D unless cancelled; when cancelled it needs 2 more seconds to notice
@@ -157,6 +181,20 @@ func monitor(sc scenario, tr *trace, s *vs.Sched) (key, what string) {
 	if !tr.returned {
 		return "dial-never-returns", "Dial did not return"
 	}
+	if sc.BadPublicName {
+		switch {
+		case tr.retErr == nil:
+			return "bad-public-name-accepted", "Dial succeeded although no ECH config can be built from the 300-byte PublicName"
+		case len(tr.attempts) > 0:
+			return "attempt-despite-setup-error", fmt.Sprintf("%d attempts were started although Dial failed during its set-up", len(tr.attempts))
+		}
+		for _, te := range s.ThreadEnds() {
+			if te.ID != 0 && te.Name != "canceller" && te.Done && te.At > tr.retAt {
+				return "goroutine-lingers", fmt.Sprintf("thread %d (%s) finished at %v, Dial returned at %v", te.ID, te.Name, te.At, tr.retAt)
+			}
+		}
+		return "", ""
+	}
 	delay, timeout := time.Duration(sc.Delay)*unit, time.Duration(sc.Timeout)*unit
 	// 1. order
 	// Start times must be non-decreasing in target order. Attempts released at the same virtual instant (two failures
@@ -166,7 +204,7 @@ func monitor(sc scenario, tr *trace, s *vs.Sched) (key, what string) {
 	byTarget := append([]*attempt{}, tr.attempts...)
 	sort.SliceStable(byTarget, func(i, j int) bool { return byTarget[i].target < byTarget[j].target })
 	for _, a := range byTarget {
-		if a.ctxDoneAtEntry {
+		if a.ctxDoneAtEntry || a.retry {
 			continue
 		}
 		if a.start < lastStart {
@@ -194,6 +232,9 @@ func monitor(sc scenario, tr *trace, s *vs.Sched) (key, what string) {
 			if returned && !e.a.ctxDoneAtEntry {
 				return "attempt-after-decision-with-live-context", fmt.Sprintf("attempt for target %d began after Dial had returned, with a context that is not cancelled", e.a.target)
 			}
+			if e.a.retry {
+				break // the ECH retry continues the same attempt in the same slot: no new start for the staggering rule
+			}
 			if prevStart != nil && !e.a.ctxDoneAtEntry && e.at-prevStart.at < delay {
 				earlyStarts++
 				if earlyStarts > failures {
@@ -204,13 +245,40 @@ func monitor(sc scenario, tr *trace, s *vs.Sched) (key, what string) {
 		case "end":
 			inflight--
 			if e.a.result == "fail" || e.a.result == "cancelled" {
-				failures++
+				failures++ // (an ECH rejection that is retried is not reported as a failure)
 			}
 			if e.a.end-e.a.start > timeout && sc.Plans[max(e.a.target, 0)].Kind != "ok-slow-to-abort" {
 				return "attempt-timeout", fmt.Sprintf("attempt for target %d ran %v, Timeout is %v", e.a.target, e.a.end-e.a.start, timeout)
 			}
 		case "return":
 			returned = true
+		}
+	}
+	// 4b. the per-attempt timeout covers everything done for one target, an ECH retry included
+	firstStart, lastEnd := map[int]time.Duration{}, map[int]time.Duration{}
+	for _, a := range tr.attempts {
+		if _, ok := firstStart[a.target]; !ok {
+			firstStart[a.target] = a.start
+		}
+		lastEnd[a.target] = max(lastEnd[a.target], a.end)
+	}
+	for t, st := range firstStart {
+		if t >= 0 && lastEnd[t]-st > timeout && sc.Plans[t].Kind != "ok-slow-to-abort" {
+			return "target-timeout", fmt.Sprintf("the attempt for target %d (with its ECH retry) occupied its slot from %v to %v, Timeout is %v", t, st, lastEnd[t], timeout)
+		}
+	}
+	// 8. no goroutine outlives the outstanding attempts: every thread Dial started has finished by the time Dial has returned
+	// and the last DialFunc call has returned (virtual time: waiting out a delay or a timer counts)
+	quiet := tr.retAt
+	for _, a := range tr.attempts {
+		quiet = max(quiet, a.end)
+	}
+	for _, te := range s.ThreadEnds() {
+		if te.ID == 0 || te.Name == "canceller" {
+			continue
+		}
+		if te.Done && te.At > quiet {
+			return "goroutine-lingers", fmt.Sprintf("thread %d (%s) started by Dial finished at %v; Dial had returned at %v and the last attempt at %v", te.ID, te.Name, te.At, tr.retAt, quiet)
 		}
 	}
 	// resolve-error targets count as failures for the staggering rule: handled by treating them as instantaneous failures
@@ -304,7 +372,7 @@ func allDoneBefore(tr *trace, at time.Duration) bool { return tr.retAt <= at }
 
 // ---- scenarios and exploration ----
 
-var planDomain = []plan{{"ok", 0}, {"ok", 1}, {"ok", 3}, {"fail", 0}, {"fail", 1}, {"fail", 3}, {"hang", 0}, {"resolve-error", 0}, {"ok-slow-to-abort", 3}}
+var planDomain = []plan{{"ok", 0}, {"ok", 1}, {"ok", 3}, {"fail", 0}, {"fail", 1}, {"fail", 3}, {"hang", 0}, {"resolve-error", 0}, {"ok-slow-to-abort", 3}, {"reject-then-hang", 1}}
 
 func scenarios(thorough bool) []scenario {
 	var out []scenario
@@ -333,7 +401,10 @@ func scenarios(thorough bool) []scenario {
 						if !thorough && n == 3 && c == 4 && dt[0] == 1 {
 							continue
 						}
-						out = append(out, scenario{plans, mc, dt[0], dt[1], c})
+						out = append(out, scenario{Plans: plans, MaxConc: mc, Delay: dt[0], Timeout: dt[1], CancelAt: c})
+						if n <= 2 && c <= 0 && dt[0] == 2 {
+							out = append(out, scenario{Plans: plans, MaxConc: mc, Delay: dt[0], Timeout: dt[1], CancelAt: c, BadPublicName: true})
+						}
 					}
 				}
 			}
